@@ -728,11 +728,23 @@ func (db *SpecDB) LoadSpecFile(path string, trusted bool) error {
 					}
 					parts := strings.Fields(text[:i])
 					rhs := strings.Fields(text[i+2:])
-					if len(parts) != 2 || len(rhs) != 3 || rhs[0] != "call" {
-						return fail("bind name type := call key n")
+					if len(parts) != 2 || len(rhs) < 3 || (rhs[0] != "call" && rhs[0] != "after") {
+						return fail("bind name type := call key n  |  after key n expr")
 					}
 					cl.Name, cl.Type = parts[0], parts[1]
 					cl.Text = rhs[1] + " " + rhs[2]
+					if rhs[0] == "after" {
+						if len(rhs) < 4 {
+							return fail("bind name type := after key n expr")
+						}
+						e, err := ParseSpecExpr(strings.Join(rhs[3:], " "))
+						if err != nil {
+							return fail("%v", err)
+						}
+						cl.Expr = e
+					} else if len(rhs) != 3 {
+						return fail("bind name type := call key n")
+					}
 				case "ghost":
 					// ghost name type [:= init]
 					rest := text
